@@ -71,6 +71,9 @@ def _common(draw, gaussian, ctx):
         # "any transverse polarization": the vector may have any length and be given for E or for H
         "pol_len": draw(st.sampled_from([1.0, 1.0, 5.0, 0.3, 2.5])),
         "pol_field": draw(st.sampled_from(["E", "E", "H"])),
+        # the source's on/off schedule may be spelled explicitly (delayed start by a few steps, or an on-duration in
+        # periods that outlasts the run): physically the same one-way source, but a different code path
+        "switch": draw(st.sampled_from([{}, {}, {"start_step": 2}, {"start_step": 0}, {"on_for_steps": 100000, "periods": True}])),
         "cpw": draw(st.sampled_from(range(150, 301))) / 10.0,  # cells per wavelength in the medium
         "eps": eps,
         "mu": mu,
@@ -226,7 +229,7 @@ def measure(ctx, case, gaussian):
         steps = int(math.ceil(12 * wf / (2 * math.pi) * period + 3 * transit)) + 20
         prof = {"kind": "pulse", "width_factor": wf}
     src = {"type": "gaussian_plane" if gaussian else "uniform_plane", "name": "src", "wl_cells": wl_vac, "amp": 1.0,
-           "profile": prof, "switch": {}, "axis": ax, "pos": spos, "direction": direction, "pol": pol,
+           "profile": prof, "switch": case.get("switch", {}), "axis": ax, "pos": spos, "direction": direction, "pol": pol,
            "pol_len": case.get("pol_len", 1.0), "pol_field": case.get("pol_field", "E"),
            "lo": list(tlo), "hi": list(thi)}
     if gaussian:
